@@ -163,6 +163,7 @@ AnnounceVerdict(nd, m, src, rep, ln) ==
     /\ Chk("C06", "wrong-length-token-refused", ln, m.a.tokenl # 20 => ~tokok)
     /\ (tokok => Chk("C07", "announce-verdict-consistent-with-history", ln, PS!AddOK(nd.acked, m.a.ih, c, now, stored)))
     /\ (tokok /\ ~stored => Chk("C05", "full-store-refused-with-202", ln, rep.m.e.code = 202))
+    /\ (tokok /\ ~stored => Chk("C05", "refused-with-202-only-when-the-store-is-full", ln, PS!AddOK(nd.acked, m.a.ih, c, now, FALSE)))
 
 Effects(nd, m, src, rep) ==
     IF m.q = "get_peers" /\ rep.m.y = "r" /\ rep.m.r.tokenl >= 0
